@@ -32,6 +32,7 @@
 -/
 import Mathlib.Tactic.Ring
 import Mathlib.Tactic.FieldSimp
+import Mathlib.Tactic.NormNum.OfScientific
 
 namespace Gep
 
